@@ -581,3 +581,120 @@ func ruleR16_15(w *World, r *Report) {
 		r.Lost("the creation of the gRPC server (grpc.NewServer)")
 	}
 }
+
+// R18.10 a decoded notification is always handed to the loop
+func ruleR18_10(w *World, r *Report) {
+	u := w.Client()
+	r.Rule("R18.10", "the MQTT callback hands every decoded notification to the notification loop with a blocking send (not in a select with a default): a notification that arrives while the loop is busy with an earlier push-pull announces operations that push-pull did not ask for, and nothing else will", 1)
+	fn := u.Fn(pCManagers, "NotifyManager", "notificationSubscribeFunc")
+	if fn == nil {
+		r.Lost("NotifyManager.notificationSubscribeFunc")
+		return
+	}
+	n := 0
+	for _, f := range withClosures(fn) {
+		forEachInstr(f, func(in ssa.Instruction) {
+			switch x := in.(type) {
+			case *ssa.Send:
+				if strings.HasSuffix(canonName(x.Chan), ".channel") {
+					n++
+					r.OK("notificationSubscribeFunc/blocking hand-over", u.Pos(x.Pos()), "a plain send")
+				}
+			case *ssa.Select:
+				for _, st := range x.States {
+					if st.Dir == types.SendOnly && strings.HasSuffix(canonName(st.Chan), ".channel") {
+						n++
+						onlyWayOn := x.Blocking
+						for _, o := range x.States {
+							if o != st && o.Dir != types.RecvOnly { // waiting for a shutdown signal besides is no way past the loop
+								onlyWayOn = false
+							}
+						}
+						r.Check(onlyWayOn, "notificationSubscribeFunc/blocking hand-over", u.Pos(x.Pos()), "the send is the only way on", "the notification is sent to the loop in a select that can go another way (default, or another case): when the loop is busy with the push-pull of an earlier notification the new one is dropped, and the operations it announces are not pulled until somebody pushes again")
+					}
+				}
+			}
+		})
+	}
+	if n == 0 {
+		r.Lost("notificationSubscribeFunc: the send to the notification loop")
+	}
+}
+
+// callsRecover: fn, or an orda function it calls (up to depth), calls the builtin recover.
+func callsRecover(fn *ssa.Function, depth int) bool {
+	if fn == nil || depth < 0 {
+		return false
+	}
+	for _, c := range callsIn(fn) {
+		if b, ok := c.Common().Value.(*ssa.Builtin); ok && b.Name() == "recover" {
+			return true
+		}
+	}
+	return false
+}
+
+// R16.16 every goroutine of the request path recovers
+func ruleR16_16(w *World, r *Report) {
+	u := w.Server()
+	if u == nil {
+		return
+	}
+	r.Rule("R16.16", "every goroutine the server starts while it handles requests (service, snapshot, storage and notification packages) runs under a deferred function that recovers: a panic in a goroutine nobody recovers ends the server process, whatever the interceptor of the gRPC server does", 2)
+	n := 0
+	for _, fn := range u.ordaFuncs(func(p string) bool { return p == pService || p == pSnapshot || p == pMongo || p == pNotif }) {
+		for _, b := range fn.Blocks {
+			for _, in := range b.Instrs {
+				g, ok := in.(*ssa.Go)
+				if !ok {
+					continue
+				}
+				n++
+				var started *ssa.Function
+				switch v := g.Call.Value.(type) {
+				case *ssa.Function:
+					started = v
+				case *ssa.MakeClosure:
+					started, _ = v.Fn.(*ssa.Function)
+				}
+				if started == nil {
+					started = g.Call.StaticCallee()
+				}
+				good := false
+				if started != nil {
+					for _, sb := range started.Blocks {
+						for _, si := range sb.Instrs {
+							d, isDefer := si.(*ssa.Defer)
+							if !isDefer {
+								continue
+							}
+							var df *ssa.Function
+							switch v := d.Call.Value.(type) {
+							case *ssa.Function:
+								df = v
+							case *ssa.MakeClosure:
+								df, _ = v.Fn.(*ssa.Function)
+							}
+							if df == nil {
+								df = d.Call.StaticCallee()
+							}
+							if callsRecover(df, 0) {
+								good = true
+							}
+							// a deferred function that starts by calling a recovering one does not recover itself:
+							// recover() only works in the deferred function proper
+						}
+					}
+				}
+				name := "?"
+				if started != nil {
+					name = fnName(started)
+				}
+				r.Check(good, fnName(flatRoot(fn))+"/go "+name+" recovers", u.Pos(g.Pos()), "a deferred function of the goroutine calls recover", "the goroutine started here has no deferred recover: a panic in it (e.g. while the server-side replica is rebuilt from stored operations, whose bodies nobody validated) ends the server process")
+			}
+		}
+	}
+	if n < 2 {
+		r.Lost(fmt.Sprintf("goroutines started on the request path (found %d)", n))
+	}
+}
